@@ -315,8 +315,9 @@ impl Run {
             "violations": new_viols.len(),
         });
         if replay_filter.is_none() {
-            let path = format!("/verif/evidence/{}.json", self.id);
-            let _ = std::fs::create_dir_all("/verif/evidence");
+            let edir = std::env::var("VERIF_EVIDENCE_DIR").unwrap_or_else(|_| "/verif/evidence".to_string());
+            let path = format!("{}/{}.json", edir, self.id);
+            let _ = std::fs::create_dir_all(&edir);
             if let Err(e) = std::fs::write(&path, serde_json::to_string_pretty(&ev).unwrap() + "\n") {
                 mach.push(format!("cannot write evidence {}: {}", path, e));
             }
@@ -372,7 +373,8 @@ impl Run {
         }
         let mut code = 0;
         if !new_viols.is_empty() {
-            let dir = format!("/verif/replays/{}", self.id);
+            let rdir = std::env::var("VERIF_REPLAY_DIR").unwrap_or_else(|_| "/verif/replays".to_string());
+            let dir = format!("{}/{}", rdir, self.id);
             let _ = std::fs::create_dir_all(&dir);
             for (k, v) in &new_viols {
                 let fname: String = k.chars().map(|c| if c.is_ascii_alphanumeric() || c == '-' || c == '.' { c } else { '_' }).collect();
